@@ -66,6 +66,22 @@ func (p *pkg) checkConstGlobals(gl *glue) {
 			}
 		}
 	}
+	// a translated function may have only ONE Go body in the package, whatever the
+	// build constraints: limbgen reads the body in its three files (the portable
+	// dispatch), and another architecture-specific Go body would not be seen
+	bodies := map[string]int{}
+	for _, fds := range c.funcs {
+		for _, fd := range fds {
+			if fd.Body != nil {
+				bodies[funcKey(fd)]++
+			}
+		}
+	}
+	for k, n := range bodies {
+		if n > 1 && important[k] && k != "Element" {
+			fatalf("%s: the translated function %s has %d Go bodies in the package (build-constrained variants are not supported)", p.dir, k, n)
+		}
+	}
 	for _, f := range files {
 		for _, d := range f.Decls {
 			fd, isFn := d.(*ast.FuncDecl)
